@@ -2512,9 +2512,14 @@ pub fn srv_conn(rec: &mut Rec, rng: &mut Rng, thorough: bool) {
             if !ok {
                 rec.oracle_fail("C04", &format!("{} small Expect requests and an oversized declaration in one write (limit {}): the client received {} interim responses and {} responses with status 400", n_small, lim, n100, bad.len()), &sim.w.log);
             }
-            // the requests in front of the violation are dropped with it or were yielded before it was read: answer what is held
+            // the requests in front of the violation are dropped with it or were yielded before it was read: answer what is
+            // held, then the client leaves and its slot is free again for the scenarios below
             while let Some(k) = sim.w.held.iter().position(|h| h.client == Some(g)) {
-                sim.w.held.remove(k);
+                sim.respond(rec, rng, k);
+            }
+            sim.w.close(rec, g);
+            for _ in 0..3 {
+                sim.poll(rec);
             }
         }
         // C11 with a request in flight across the 400: R0 yielded and not yet answered, a malformed request (400), a
